@@ -46,6 +46,12 @@ def generate(rng, tier, idx):
     w = gen_world(rng, n_models=(2, 6), n_wav=(12, 40), n_filters=(3, 5), n_ap=(2, 5), filt_desc=True, n_par=(1, 3), allow_zero_band=True)
     if w['format'] == 1 and rng.random() < 0.2:
         w['mixed'] = rng.randrange(w['n_models'])        # one SED on another wavelength grid (per-file packages only)
+    big = rng.random() < (0.02 if tier == 'thorough' else 0.003)
+    if big:
+        # a grid larger than any plausible internal block size, and not a multiple of a power of two (cube format keeps it cheap)
+        w.update(format=2, n_models=rng.choice([1030, 4100, 16421, 16421]), n_wav=12, n_ap=(2 if w['apdep'] else 1), asc_per_file=None, mixed=None,
+                 zero_band=None, gz=False, subdir=0, n_par=1)
+        w['flux_unit'] = w['flux_unit'] if w['flux_unit'] in ('mJy', 'Jy') else 'mJy'
     w['ext_n'] = 40
     nf = len(w['filters'])
     av_hi = round(rng.uniform(5, 30), 2)
@@ -62,7 +68,7 @@ def generate(rng, tier, idx):
         sc['drange'] = [1.0, 2.0]
     plants = []
     for i in range(rng.randint(1, 4)):
-        p = {'m': rng.randrange(w['n_models']), 'av_pick': rng.choice(['lo', 'hi', 'in', 'in']), 'av_u': rng.random(),
+        p = {'m': (rng.randrange(w['n_models']) if not (big and rng.random() < 0.6) else -1 - rng.randrange(30)), 'av_pick': rng.choice(['lo', 'hi', 'in', 'in']), 'av_u': rng.random(),
              'd_pick': rng.choice(['first', 'last', 'in', 'in']), 'd_u': rng.random(), 's0': round(rng.uniform(-1, 1), 4),
              'rel': [float('%.3g' % (10 ** rng.uniform(-3, np.log10(0.3)))) for _ in range(nf)],
              'kind': [rng.choice(['f1', 'f1', 'f1', 'f1', 'f4', 'lim', 'garbage0', 'garbage9']) for _ in range(nf)],
@@ -103,7 +109,16 @@ def _execute(sc, sim, out):
     sc['theta'] = list(theta)
     kj = ref_k(W.ext_wav, W.ext_chi, [f['center'] for f in W.fspec])
     # reference convolved fluxes (n_models, nf, n_ap)
-    conv = np.array([[ref_convolve(W.sed[i][0], W.sed[i][1], f['nu'], f['r']) for f in W.fspec] for i in range(W.n_models)])
+    from ..ref import ref_rebin, nu_of
+    Rcache = {}
+
+    def conv_one(i, f):
+        wv, v, _e = W.sed[i]
+        key = (id(wv), f['name'])
+        if key not in Rcache:
+            Rcache[key] = ref_rebin(f['nu'], f['r'], nu_of(wv))
+        return np.sum(np.asarray(v, float) * Rcache[key][None, :], axis=1)
+    conv = np.array([[conv_one(i, f) for f in W.fspec] for i in range(W.n_models)])
     zero_models = set(int(i) for i in np.where(np.any(conv <= 0, axis=(1, 2)))[0])     # models with an exactly zero band
     if len(zero_models) >= W.n_models:
         out.discarded = 'non-positive-reference-flux'
